@@ -571,19 +571,25 @@ enum FlavorOutcome {
     Refused(Option<ErrClass>, String),
 }
 
-struct GrabOutcome(Option<FlavorOutcome>);
+struct GrabOutcome(Option<FlavorOutcome>, Option<Value>);
 impl WithPurl for GrabOutcome {
-    fn ok<T: Flavor>(&mut self, _f: &'static str, p: &purl::GenericPurl<T>, _acc: &mut Acc) {
+    fn ok<T: Flavor>(&mut self, f: &'static str, p: &purl::GenericPurl<T>, acc: &mut Acc) {
         self.0 = Some(FlavorOutcome::Built(observe(p), p.to_string()));
+        if let Some(case) = &self.1 {
+            // C10 for every type parameter: re-building is the identity
+            let mut c = case.clone();
+            c["flavor"] = json!(f);
+            m10(p, &c, acc);
+        }
     }
     fn refused(&mut self, _f: &'static str, c: Option<ErrClass>, t: &str, _acc: &mut Acc) {
         self.0 = Some(FlavorOutcome::Refused(c, t.to_owned()));
     }
 }
 
-pub fn c13_flavor_case(spec: &BuildSpec, acc: &mut Acc) {
+pub fn c13_flavor_case(spec: &BuildSpec, rebuild: bool, acc: &mut Acc) {
     acc.evals += 1;
-    let case = json!({"engine": "c13-flavors", "spec": spec.to_json()});
+    let case = json!({"engine": if rebuild { "c10-flavors" } else { "c13-flavors" }, "spec": spec.to_json()});
     let r = guarded(|| {
         let mut first: Option<(&str, FlavorOutcome)> = None;
         for fl in ["String", "CowOwned", "CowBorrowed", "SmallString"] {
@@ -591,7 +597,7 @@ pub fn c13_flavor_case(spec: &BuildSpec, acc: &mut Acc) {
             if fl == "SmallString" {
                 continue;
             }
-            let mut g = GrabOutcome(None);
+            let mut g = GrabOutcome(None, if rebuild { Some(case.clone()) } else { None });
             build_flavor(fl, spec, acc, &mut g);
             let Some(out) = g.0 else { continue };
             match &first {
@@ -621,19 +627,19 @@ pub fn c13_flavor_case(spec: &BuildSpec, acc: &mut Acc) {
     acc.nontrivial += 1;
 }
 
-pub fn c13_sweep(tier: Tier) -> (Acc, Value) {
+pub fn c13_sweep(tier: Tier, rebuild: bool) -> (Acc, Value) {
     let rich = |ty: &str| BuildSpec { ty: ty.to_owned(), ns: "A/b".into(), name: "N".into(), version: "1".into(), quals: vec![("K".into(), "v".into())], subpath: "s".into() };
     // every scalar value as a one-character type and after a letter
     let mut total = for_all_scalars(|c, acc| {
-        c13_flavor_case(&spec_with(&c.to_string(), 1, "n"), acc);
-        c13_flavor_case(&rich(&format!("a{c}")), acc);
+        c13_flavor_case(&spec_with(&c.to_string(), 1, "n"), rebuild, acc);
+        c13_flavor_case(&rich(&format!("a{c}")), rebuild, acc);
     });
     let scalars = total.evals;
     // all ASCII pairs as type
     let pairs = par_items(128, threads(), |a, acc| {
         for b in 0..128u8 {
             let ty: String = [a as u8 as char, b as char].iter().collect();
-            c13_flavor_case(&spec_with(&ty, 1, "n"), acc);
+            c13_flavor_case(&spec_with(&ty, 1, "n"), rebuild, acc);
         }
     });
     let npairs = pairs.evals;
@@ -642,7 +648,7 @@ pub fn c13_sweep(tier: Tier) -> (Acc, Value) {
     let n = if tier == Tier::Quick { 4 } else { 5 };
     let alphabet = ["a", "z", "A", "Z", "m", "M", "9", ".", "+", "-", "!", "É"];
     let short = for_all_short(&alphabet, n, |s, acc| {
-        c13_flavor_case(&rich(s), acc);
+        c13_flavor_case(&rich(s), rebuild, acc);
         if s == "Zip" {
             acc.sample(|| json!({"type": s}));
         }
@@ -660,7 +666,7 @@ pub fn c13_sweep(tier: Tier) -> (Acc, Value) {
                         f[fi] = u[a];
                         f[fj] = u[b];
                         let spec = BuildSpec { ty: ty.to_owned(), ns: f[0].into(), name: f[1].into(), version: f[2].into(), quals: q, subpath: f[3].into() };
-                        c13_flavor_case(&spec, acc);
+                        c13_flavor_case(&spec, rebuild, acc);
                     }
                 }
             }
